@@ -234,8 +234,9 @@ structure Env where
   units : List (Str × Val × Option Str)        -- `$unit` definitions (name, value, unit)
   sources : List (Str × List Node)             -- remote DIP sources: name ↦ parsed nodes
   parents : List (Nat × Str)                   -- hierarchy
+  srcUnits : List (Str × List (Str × Val × Option Str))   -- custom units of the remote sources
 
-def Env.empty : Env := ⟨[], [], [], []⟩
+def Env.empty : Env := ⟨[], [], [], [], []⟩
 
 /-- `path.split('?')` for a path with exactly one `?` -/
 def splitQ : Str → Option (Str × Str)
@@ -448,6 +449,7 @@ inductive Item where
   | unitdef (name : Str) (value : Val) (unit : Option Str)     -- `$unit name = value unit`
   | unitref (name : Str) (ref : Str) (unit : Option Str)       -- `$unit name = {ref} unit`
   | optref (ref : Str) (unit : Option Str)                     -- option line `= {ref} unit`
+  | unitimp (source : Str) (name : Option Str)                 -- `$unit {source?*}` / `$unit {source?name}`
   | case (indent : Nat) (k : CaseKind)
 
 /-- `description = str(raw)` the first time, `description += str(raw)` afterwards -/
@@ -508,7 +510,33 @@ def addUnit (tbl : UnitTable) (env : Env) (name : Str) (v : Val) (unit : Option 
     else .ok { env with units := env.units ++ [(name, v, unit)] }
   | _ => .error "unit value is not a number"
 
+/-- `UnitList.extend`: every selected unit is added; a name that exists already is refused -/
+def extendUnits (units : List (Str × Val × Option Str)) :
+    List (Str × Val × Option Str) → Except String (List (Str × Val × Option Str))
+  | [] => .ok units
+  | u :: rest =>
+    if units.any (fun x => x.1 = u.1) then .error "unit exists"
+    else extendUnits (units ++ [u]) rest
+
+/-- `$unit {source?query}`: `UnitList.query` of the remote source (`*` or one name), then `extend` -/
+def importUnits (env : Env) (source : Str) (name : Option Str) : Except String Env :=
+  match env.srcUnits.find? (fun s => s.1 = source) with
+  | none => .error "request: no such source"
+  | some s =>
+    let sel : Except String (List (Str × Val × Option Str)) := match name with
+      | none => .ok s.2
+      | some nm => match s.2.find? (fun u => u.1 = nm) with
+        | some u => .ok [u]
+        | none => .error "requested unit does not exist"
+    match sel with
+    | .error e => .error e
+    | .ok us =>
+      match extendUnits env.units us with
+      | .error e => .error e
+      | .ok units' => .ok { env with units := units' }
+
 def step (tbl : UnitTable) (env : Env) : Item → Except String Env
+  | .unitimp source name => importUnits env source name
   | .prop p =>
     match updateLast (applyProp p) env.nodes with
     | .ok ns => .ok { env with nodes := ns }
@@ -707,6 +735,7 @@ inductive SStmt where
   | option (path : List Str) (v : SVal) (unit : Option Str)
   | description (path : List Str) (d : Str)
   | unitdef (name : Str) (v : SVal) (unit : Option Str)
+  | unitimp (source : Str) (name : Option Str)
   | caseCond (v : SVal)
   | caseElse
   | caseEnd
@@ -716,6 +745,7 @@ structure SEnv where
   sources : List (Str × List SNode)
   mayReject : Bool          -- an import selected nothing: rejecting the program is also allowed
   units : List (Str × Val × Option Str)      -- custom units (name, value, unit)
+  srcUnits : List (Str × List (Str × Val × Option Str))   -- custom units of the remote sources
 
 /-- `rejected`: the property demands an error.  `outside`: the property is silent. -/
 inductive SErr where
@@ -846,6 +876,20 @@ def sStep (tbl : UnitTable) (env : SEnv) : SStmt → Except SErr SEnv
         else if env.units.any (fun x => x.1 = name) then .error .outside
         else .ok { env with units := env.units ++ [(name, v, pickUnit unit u)] }
       | _ => .error .outside
+  | .unitimp source name =>
+    match env.srcUnits.find? (fun s => s.1 = source) with
+    | none => .error .outside
+    | some s =>
+      let sel : Option (List (Str × Val × Option Str)) := match name with
+        | none => some s.2
+        | some nm => (s.2.find? (fun u => u.1 = nm)).map (fun u => [u])
+      match sel with
+      | none => .error .outside
+      | some us =>
+        -- a name that exists already (in the environment or twice in the selection): refused
+        if us.any (fun u => env.units.any (fun x => x.1 = u.1)) then .error .rejected
+        else if !decide ((us.map (fun u => u.1)).Nodup) then .error .outside
+        else .ok { env with units := env.units ++ us }
   | .caseCond _ => .error .outside      -- clauses are handled by `sStepC`
   | .caseElse => .error .outside
   | .caseEnd => .error .outside
